@@ -13,11 +13,13 @@ def run(chk):
     n, classes, dist, ndis, cases = engine.run_engine(chk, 'C03', per_font)
     nv, vclasses, vdis, ran = engine.run_vmslot(chk, 'C03', 30000 if chk.tier == 'thorough' else 2500)
     n += nv; classes |= vclasses; ndis += vdis
+    nf, fclasses, fdis = engine.run_fontkit(chk, 'C03', 400 if chk.tier == 'thorough' else 40)
+    n += nf; classes |= fclasses; ndis += fdis
     chk.notes.append('adversarial rule-action programs: %d cases, %d accepted programs executed' % (nv, ran))
     chk.cov.update(evaluations=n, distinct_nontrivial=len(classes), disagreements_checked=ndis, distribution=dist,
                    rule='%d texts per shipped font (16 fonts): repertoire windows, spaces / joiners, unmapped and astral characters, ill-formed units, three encodings, dir 0..7, '
                         'face options, with / without gr_font; each shaped with the instrumented library, structural oracle on the API output, operation trace replayed '
-                        'through the extracted model with snapshot comparison after every pass; plus adversarial accepted action programs (INSERT/DELETE/PUT_COPY/ASSOC/attach in arbitrary, re-attaching, mutually referential ways) run by the real loader + interpreter on real segments, same replay; non-trivial = distinct (font, slot-count class, direction, verdict)' % per_font,
+                        'through the extracted model with snapshot comparison after every pass; plus adversarial accepted action programs (INSERT/DELETE/PUT_COPY/ASSOC/attach in arbitrary, re-attaching, mutually referential ways) run by the real loader + interpreter on real segments, same replay; plus compiled GDL-lite rule programs (FontKit: insert / delete without re-association / substitutions over overlapping classes) on the real engine; non-trivial = distinct (font, slot-count class, direction, verdict)' % per_font,
                    samples=[cases[0][:200], cases[len(cases) // 2][:200]], exhaustive=False)
 
 
@@ -26,6 +28,12 @@ def replay(chk, obj):
     if not case:
         print('no case'); return 1
     w = engine.build(chk); mexe = vlib.build_model_driver('Stream')
+    if obj.get('replay', {}).get('font_gz_b64'):
+        import base64, zlib, os
+        tmp = os.path.join(vlib.BUILD, 'fuzzfonts', 'replay'); os.makedirs(tmp, exist_ok=True)
+        fp = os.path.join(tmp, 'replay.ttf')
+        open(fp, 'wb').write(zlib.decompress(base64.b64decode(obj['replay']['font_gz_b64'])))
+        f = case.split(); f[2] = fp; case = ' '.join(f)
     _, il, err = vlib.run_pair(None, w, [case], shards=1)
     ml, _, _ = vlib.run_pair(mexe, None, [il[0] or 'x'], shards=1)
     print(case[:300]); print(' impl :', (il[0] or '')[:800]); print(' model:', (ml[0] or '')[:800])
